@@ -188,7 +188,10 @@ def finish(res):
     ev = {"property_id": res.pid, "tier": res.tier, "seed": res.seed, "level": "proof",
           "coverage": res.coverage, "assumptions": res.assumptions, "wall_s": round(time.time() - res.t0, 2),
           "violations": len(res.violations)}
-    json.dump(ev, open(os.path.join(VERIF, "evidence", res.pid + ".json"), "w"), indent=1, ensure_ascii=False)
+    # development runs (proofs not rebuilt) never overwrite the evidence of record
+    evdir = os.path.join(BUILD, "scratch", "evidence_dev") if os.environ.get("VERIF_DEV_SKIP_PROOF") else os.path.join(VERIF, "evidence")
+    os.makedirs(evdir, exist_ok=True)
+    json.dump(ev, open(os.path.join(evdir, res.pid + ".json"), "w"), indent=1, ensure_ascii=False)
     for l in lines[:20]:
         print(l)
     sys.stdout.flush()
